@@ -130,6 +130,7 @@ def display_mapping(circuit: cirq.Circuit, initial_mapping: LogicalMapping) -> N
         new_moments.append(circuits.Moment([gate(*qubits)]))
 
     circuit._moments = new_moments
+    circuit._mutated()
 
 
 @value.value_equality
@@ -291,6 +292,7 @@ class DecomposePermutationGates:
 
     def optimize_circuit(self, circuit: cirq.Circuit) -> None:
         circuit._moments = [*transformers.expand_composite(circuit, no_decomp=self.no_decomp)]
+        circuit._mutated()
 
     def __call__(self, circuit: cirq.Circuit) -> None:
         self.optimize_circuit(circuit)
